@@ -44,6 +44,34 @@ RefLimitKeys == {"Conv2D", "Activation"}
 RefLayer(n) == CHOOSE l \in {RefModel[k] : k \in 1..Len(RefModel)} : l.name = n
 RefKeyFn == [n \in {RefModel[k].name : k \in 1..Len(RefModel)} |-> KeyOf(RefLimitKeys, RefPatterns, RefLayer(n))]
 
+\* ---------------------------------------------------------------------------------------------------------------
+\* Generic form (any reference model, raw limit dictionary with short lists, explicit quantizer lists and "default").
+\* A limit entry is [t |-> "n", n |-> bits, l |-> <<>>]  or  [t |-> "l", n |-> 0, l |-> <<names>>].
+\* Documented format:  non-sequence classes [kernel, bias, activation]; sequence classes [kernel, bias, recurrent,
+\* activation]; "default" (scalar d = <<d, d, d>>, or a list of 3..4) replaces missing values of REGISTERED classes.
+KernelRoles == {"kernel", "pointwise_kernel", "recurrent_kernel"}
+ActRoles == {"activation", "recurrent_activation"}
+\* the table (field of quantization_config) a role draws from: every kernel role draws from "kernel"
+TableOf(role) == IF role \in KernelRoles THEN "kernel" ELSE role
+\* completion of a short list of a registered class from the default list
+Complete(given, default, seq, registered) ==
+  IF ~registered THEN given
+  ELSE IF seq THEN (IF Len(given) < 4 THEN given \o SubSeq(default, Len(given) + 1, Len(default)) ELSE given)
+  ELSE IF Len(given) < 3 THEN given \o SubSeq(default, Len(given) + 1, 2) \o <<default[Len(default)]>> ELSE given
+\* position of a role's limit in a completed list (the activation limit is the last entry)
+DocIdx(lim, seq, role) == CASE role \in {"kernel", "pointwise_kernel"} -> 1
+                            [] role = "bias" -> 2
+                            [] role = "recurrent_kernel" -> IF seq THEN 3 ELSE 1
+                            [] OTHER -> Len(lim)
+\* as the code indexes it: every role whose head contains "kernel" is treated as the kernel role (named deviation
+\* RecurrentLimitIgnored: the documented recurrent entry is never consulted)
+CodeIdx(lim, seq, role) == IF role \in KernelRoles THEN 1 ELSE IF role = "bias" THEN 2 ELSE Len(lim)
+ToSetQ(sq) == {sq[k] : k \in 1..Len(sq)}
+AllowedBy(tableRole, entry) == IF entry.t = "l" THEN ToSetQ(entry.l) \cap {tableRole[k][1] : k \in 1..Len(tableRole)}
+                               ELSE {tableRole[k][1] : k \in {j \in 1..Len(tableRole) : tableRole[j][2] <= entry.n}}
+PropAllowed(table, lim, seq, role) == AllowedBy(table[TableOf(role)], lim[DocIdx(lim, seq, role)])
+DesignAllowed(table, lim, seq, role) == AllowedBy(table[TableOf(role)], lim[CodeIdx(lim, seq, role)])
+
 \* ---- properties
 PropWithinLimit(table, limit, key, role, q) == q \in DOMAIN table[role] /\ table[role][q] <= limit[key][RoleIdx(role)]
 \* forgiving factor on integer sizes: sign and order (delta = c * log(ref/trial), c > 0)
